@@ -176,6 +176,14 @@ FAMILY_CTOR = {
 def r08_2(prog, rep, sup, direction="unmarshal"):
     rows = C.handlers(prog, direction)
     done = set()
+    # members that run user code (a dataclass __post_init__, an Enum._missing_, any constructor of a structured class)
+    # reject with whatever that code raises: only `Exception` itself covers "whichever error the member used"
+    rep.check(
+        oracle.exc_covered("builtins.Exception", list(sup)), "R08.2", f"{direction}:user-code-members", rows[0].loc,
+        "any Exception raised by a member counts as that member's rejection",
+        f"the union suppresses an allow-list {sorted(x.rsplit('.', 1)[-1] for x in sup)}: a member that rejects through user code (assert in __post_init__ -> AssertionError, a dict lookup in Enum._missing_ -> KeyError, a custom exception) or by exhausting the stack on deep text (RecursionError) aborts the union instead of letting the next member try / raising ValueError",
+        detail="any-exception",
+    )  # fmt: skip
     for r in rows:
         if r.routine is None:
             continue
@@ -220,6 +228,32 @@ def r08_6(prog, rep):
                 if subj[0] == "sub" and subj[2][0] == "const":
                     fixed_index = True
     rep.check(ok and not fixed_index, "R08.6", f.qualname, f.loc, "the None member is searched among all union members", "isoptionaltype looks for None at a fixed position only: a union with None elsewhere is not treated as optional (Union[str, None, int] turns None into 'None')", detail="all-members")
+    # no predicate may assume where the None member sits: under an optional/union guard, the member tuple is never cut
+    # by a constant slice or index (`get_args(obj)[:-1]` drops the *last* member, not None)
+    for qn, fn in sorted(prog.functions.items()):
+        if not qn.startswith(C.INSP + ".") or fn.cls is not None:
+            continue
+        try:
+            fps = P.paths_of(prog, fn)
+        except Exception:
+            continue
+        if not fn.params:
+            continue
+        o = ("param", fn.params[0])
+        bad = []
+        for pth in fps:
+            if not any(pol and T.is_call_to(g, f"{C.INSP}.isoptionaltype", f"{C.INSP}.isuniontype") for g, pol in pth.guards()):
+                continue
+            for tm in pth.all_terms():
+                for x in T.walk(tm):
+                    if x[0] == "sub" and x[2][0] in ("slice", "const") and (T.is_call_to(x[1], "typing.get_args", f"{C.INSP}.args") and x[1][2][:1] == (o,) or x[1] == ("attr", o, "__args__")):
+                        if x[2][0] == "slice" and x[2][1:] == (None, None, None):
+                            continue
+                        bad.append(T.show(x)[:60])
+        if bad:
+            rep.violated("R08.6", qn, fn.loc, f"{fn.name} cuts the member tuple of an optional union at a fixed position ({bad[0]}): Union[None, Foo] and Optional[Foo] get different answers because the member dropped is the last one, not None", detail="positional-members")
+        elif any(pol and T.is_call_to(g, f"{C.INSP}.isoptionaltype") for pth in fps for g, pol in pth.guards()):
+            rep.held("R08.6", qn, fn.loc, f"{fn.name} treats the members of an optional union position-independently", detail="positional-members")
     g = prog.function(f"{C.INSP}.isnonetype")
     okn = False
     for p, r in P.returns(P.paths_of(prog, g)):
